@@ -67,10 +67,6 @@ pub fn disturb() {
     const MAP: &[u8] = b"a.B -> a:\n    1:2:void m(int) -> b\n    void n() -> c\n    void n() -> b\nx.Y -> b:\n    int f -> d\n    3:4:void o():7:9 -> e\n";
     let _ = guarded(|| {
         use proguard::{ProguardCache, ProguardMapper, ProguardMapping, StackFrame};
-        for (k, kind) in [(2usize, -2i64), (3, -3), (5, -2), (4, -5)] {
-            let mut s = sink::ScriptedSink::new([vec![1 << 30; k - 1], vec![kind]].concat(), 1 << 30);
-            let _ = ProguardCache::write(&ProguardMapping::new(MAP), &mut s);
-        }
         let bad = ["(I)[[La/b", "()[", "(La/b", "(I)La", "([[", "(L\u{e9}"];
         let m = ProguardMapper::new_with_param_mapping(ProguardMapping::new(MAP), true);
         for sig in bad {
@@ -91,6 +87,14 @@ pub fn disturb() {
             }
         }
         let _ = ProguardMapping::new(MAP).uuid();
+        for sig in bad {
+            let _ = m.deobfuscate_signature(sig);
+        }
+        // last (nothing successful follows that could repair what they leave behind): writes that fail
+        for (k, kind) in [(2usize, -2i64), (3, -3), (5, -2), (4, -5)] {
+            let mut s = sink::ScriptedSink::new([vec![1 << 30; k - 1], vec![kind]].concat(), 1 << 30);
+            let _ = ProguardCache::write(&ProguardMapping::new(MAP), &mut s);
+        }
     });
 }
 
